@@ -83,10 +83,7 @@ func (v Version) IvLabel() []byte {
 }
 
 func (v Version) InitialSecretLabel() []byte {
-	switch v {
-	case Version_V2:
-		return []byte("quicv2 client in")
-	default:
-		return []byte("client in")
-	}
+	// RFC 9369 section 3.3.2 changes only the key/iv/hp/ku labels for QUIC v2;
+	// the initial secret label stays "client in".
+	return []byte("client in")
 }
